@@ -31,9 +31,9 @@ import pandas as pd
 
 from common import close
 
-REQUIRED = ['slots_last', 'guard_complete', 'results_guard', 'fitted_isSome_iff', 'refit_fresh', 'lastSpecs_mem',
-            'run_canon', 'history_independent', 'normalize_short', 'spec_accepted', 'error_keeps_state',
-            'sticky_refutes', 'tables_wf']
+REQUIRED = ['slots_last', 'guard_complete', 'results_guard', 'results_guard_nofit', 'fitted_isSome_iff',
+            'spec_accepted', 'error_keeps_state', 'refit_fresh', 'lastSpecs_mem', 'history_independent',
+            'clean_calm', 'normalize_short', 'sticky_refutes', 'tables_wf']
 RULE = ('per estimator class and configuration cell (outcome type x missing outcomes x weights x standardize / '
         'generalize ...) a random data set (n 150-300) and (a) the guard stream: every method on a fresh object and '
         'after every single specification; (b) random call histories of 3-8 (quick) / 4-14 (thorough) calls mixing '
